@@ -297,6 +297,8 @@ def given_law(name, strategy, body, examples, shards=None, doc="", max_shrinks_q
         import hypothesis
         from hypothesis import HealthCheck, Phase, given, settings
         n = examples[ctx.tier]
+        if n <= 0:
+            return                      # this law is not part of this tier
         last = {}
 
         def inner(case):
